@@ -29,16 +29,31 @@ add("C07", "proof",
 STREAM_NOTE = "Codec contracts are assumptions at this layer (exercised by C12/C13). Models coq/Model/Writer.v and Reader.v are tied to the Go objects by operation-sequence correspondence (commands wrm/rdm) on every run; theorems about them are being added (see DESIGN.md); until then the level claimed is exploration."
 def stream(pid, text, technique, ref):
     add(pid, "exploration", text, STREAM_NOTE, technique, ref)
-stream("C01", "Implementation-side search of the round-trip property over random pipelines (all data shapes, chains of 1..8, all entropy codecs, hints incl. inexact, headerless) + Writer/Reader state-machine models (Coq, extracted) compared with the Go objects on random call sequences.", "differential round trip search + extracted Coq Writer/Reader models vs Go", "6/C01")
+add("C01", "proof",
+    'Theorems (coq/Properties/C01.v, Closed under the global context) over the line-by-line models of Writer.Write/processBlock/Close and Reader.Read/processBlock: for EVERY partition of the data into Write calls, every job count and EVERY value of the size hint, all Writes return their length, Close succeeds and the blocks handed to the encoding tasks are the consecutive blockSize chunks of the data with ids 1,2,3,... (loop invariants over slots/available incl. stale slot content); Writer then Reader with any job counts/hints on both sides and any sequence of Read lengths returns exactly the data then end-of-stream. Plus implementation-side round-trip search over random pipelines (all shapes, chains 1..8, 9 entropy codecs, inexact hints, headerless) and model/Go correspondence on random call sequences.',
+    'Block encoding/decoding is abstract in the stream-layer models: the theorems assume the codec contract (the decoder returns the block handed to the encoder), which C12/C13 and the round-trip search exercise but do not prove. Models coq/Model/Writer.v, Reader.v tied to the Go objects by operation-sequence correspondence (wrm/rdm) on every run; hand-off protocol tied by controlled-scheduler trace replay (C07).',
+    'Coq proof (loop invariants over the Writer/Reader state machines) + extracted-model/Go differential + round-trip search', '5.4, 6/C01')
 stream("C02", "Payload damage located by an independent container parser (bit flips, substitutions, swaps, in-pipeline damage through verif hooks), reading on after errors; Reader model (Coq, extracted) compared with the Go Reader on damaged and truncated streams.", "fault enumeration over payload positions + extracted Coq Reader model vs Go", "6/C02")
-stream("C04", "Byte comparison of the produced stream across job counts, repeated runs, Write partitions and perturbed schedules (verif yield hooks); Writer model (Coq, extracted) compared with the Go Writer on random call sequences; the protocol side is proved in C07.", "differential byte comparison across jobs/partitions/schedules + extracted Coq Writer model vs Go", "6/C04")
-stream("C05", "Decoding with every job count under perturbed schedules; a damaged block at every position, reading on after the error; Reader model (Coq, extracted) compared with the Go Reader; the protocol side is proved in C07.", "differential decoding across jobs/schedules + failing block at each position + extracted Coq Reader model vs Go", "6/C05")
-stream("C06", "Short-read sources, Read sizes incl. 0, Write partitions at the stream level; bit stream programs over short-read schedules compared with the extracted Coq InBS model.", "differential over chunk schedules + extracted Coq bit stream model vs Go", "6/C06")
+add("C04", "proof",
+    'Theorems (coq/Properties/C04.v): the (id, block) pairs handed to the encoding tasks depend on the data only - not on the Write partition, the job count or the size hint (Writer model); for every number of tasks and every interleaving the tasks of a batch append to the shared stream in id order, and a completed run equals the sequential one (hand-off model, encode side). Plus byte comparison of real streams across jobs 1..64, repeated runs, partitions, perturbed schedules and slot-history families.',
+    'Block encoding/decoding is abstract in the stream-layer models: the theorems assume the codec contract (the decoder returns the block handed to the encoder), which C12/C13 and the round-trip search exercise but do not prove. Models coq/Model/Writer.v, Reader.v tied to the Go objects by operation-sequence correspondence (wrm/rdm) on every run; hand-off protocol tied by controlled-scheduler trace replay (C07). Assumed: encoding one block is a function of (block, parameters); compared byte for byte by the harness.',
+    'Coq proof (Writer invariants + interleaving invariant of the hand-off protocol) + differential byte comparison across jobs/partitions/schedules', '5.4, 5.5, 6/C04')
+add("C05", "proof",
+    'Theorems (coq/Properties/C05.v): on a valid stream the bytes returned by any sequence of Reads are the data in order for every job count and hint (Reader model; the specification does not mention them); blocks are pulled from the shared stream in id order for every interleaving, a cancel is never overwritten and nobody touches the stream after it (hand-off model, decode side); after a block error every Read returns the error and no data. Plus decoding real streams with every job count under perturbed schedules and with a damaged block at every position, reading on after the error.',
+    'Block encoding/decoding is abstract in the stream-layer models: the theorems assume the codec contract (the decoder returns the block handed to the encoder), which C12/C13 and the round-trip search exercise but do not prove. Models coq/Model/Writer.v, Reader.v tied to the Go objects by operation-sequence correspondence (wrm/rdm) on every run; hand-off protocol tied by controlled-scheduler trace replay (C07). The theorem about a failing block in the middle of a batch (bytes before it, error, nothing after) is covered by the model/Go correspondence (rdm with damaged blocks), not yet by a Coq theorem.',
+    'Coq proof (Reader cursor invariants + hand-off invariant) + differential decoding across jobs/schedules + failing block at each position', '5.4, 5.5, 6/C05')
+add("C06", "proof",
+    'Theorems (coq/Properties/C06.v): any partition of the data into Write calls yields the same blocks; any sequence of Read lengths (0 included) returns the next min(len, remaining) bytes - the concatenation is a prefix of the data. Source side (short reads of the io.Reader): the refill loop of the input bit stream is modelled (Model/InBS.v) and compared with the Go code over short-read schedules on every run; plus stream-level decoding from sources delivering 1..4096-byte chunks.',
+    "Block encoding/decoding is abstract in the stream-layer models: the theorems assume the codec contract (the decoder returns the block handed to the encoder), which C12/C13 and the round-trip search exercise but do not prove. Models coq/Model/Writer.v, Reader.v tied to the Go objects by operation-sequence correspondence (wrm/rdm) on every run; hand-off protocol tied by controlled-scheduler trace replay (C07). The bit-stream theorem 'read_bits is independent of the chunk schedule' is stated in DESIGN.md but not yet proved: that half is correspondence + search.",
+    'Coq proof (Writer/Reader invariants) + extracted InBS model vs Go over chunk schedules', '5.1, 5.4, 6/C06')
 stream("C09", "Every strict prefix of small streams (boundary-focused + random for larger) must end in an error; Reader model (Coq, extracted) compared with the Go Reader on streams truncated before the end marker.", "exhaustive cut positions for small streams + extracted Coq Reader model vs Go", "6/C09")
 stream("C11", "All ranges x jobs 1..8 on streams of up to 12 blocks against the exact slice, listener check that skipped blocks are not decoded; Reader model (Coq, extracted) with from/to compared with the Go Reader.", "exhaustive small ranges + extracted Coq Reader model vs Go", "6/C11")
 
 stream("C08", "Fault at every call index of the sink and of the source (transient, permanent, Close), retries of Close, with the outcome rules of the property evaluated on the Go objects; bit stream fault programs and Writer sequences with an injected task failure compared with the extracted Coq models.", "exhaustive fault-point enumeration + extracted Coq OutBS/InBS/Writer models vs Go", "6/C08")
-stream("C17", "Random call programs on Writer and Reader checked against the lifecycle rules, and against the extracted Coq Writer/Reader state machines result by result.", "random API call programs vs extracted Coq state machines", "6/C17")
+add("C17", "proof",
+    'Theorems (coq/Properties/C17.v) over the Writer/Reader state-machine models: successful Writes return their full length and Close succeeds for every history of Writes; Write/Close after Close and Read/Close after Close return the documented results and leave the state unchanged (idempotence); a Writer closed without any Write yields a stream whose first Read returns (0, EOF). Byte counters (GetWritten/GetRead monotone, GetWritten = sink bytes after Close) are checked on the Go objects by random call programs, and the writer-side counter is proved at the bit stream level (C14).',
+    'Block encoding/decoding is abstract in the stream-layer models: the theorems assume the codec contract (the decoder returns the block handed to the encoder), which C12/C13 and the round-trip search exercise but do not prove. Models coq/Model/Writer.v, Reader.v tied to the Go objects by operation-sequence correspondence (wrm/rdm) on every run; hand-off protocol tied by controlled-scheduler trace replay (C07).',
+    'Coq proof over the state-machine models + random API call programs vs extracted models', '5.4, 6/C17')
 
 stream("C12", "Round trip with a sentinel word after the block for all nine entropy codecs over adversarial lengths and histograms (bit-exact consumption measured with the bit counters).", "differential round trip + consumption counters", "6/C12")
 stream("C13", "Forward/Inverse of each transform with canary-guarded buffers of exactly the advertised / decompressor sizes, decline-leaves-input-intact, data type hints.", "differential round trip with canaries", "6/C13")
